@@ -1,0 +1,47 @@
+//go:build verif
+
+package main
+
+import (
+	"crypto/ed25519"
+	"crypto/sha256"
+	"os"
+
+	"github.com/WICG/webpackage/go/integrityblock"
+)
+
+// verifWrapStrategy (build tag verif only): with VERIF_STRATEGY=rotating in the environment the tool signs through a
+// strategy whose key is rotated after the first GetPublicKey answer (as an HSM slot re-keyed between two requests):
+// the first answer is the given key, every later answer a second key, and Sign uses the key of the LAST answer.
+func verifWrapStrategy(s integrityblock.ISigningStrategy) integrityblock.ISigningStrategy {
+	if os.Getenv("VERIF_STRATEGY") != "rotating" {
+		return s
+	}
+	pub, err := s.GetPublicKey()
+	if err != nil {
+		return s
+	}
+	seed := sha256.Sum256(pub)
+	return &rotatingStrategy{first: s, second: ed25519.NewKeyFromSeed(seed[:])}
+}
+
+type rotatingStrategy struct {
+	first   integrityblock.ISigningStrategy
+	second  ed25519.PrivateKey
+	answers int
+}
+
+func (r *rotatingStrategy) GetPublicKey() (ed25519.PublicKey, error) {
+	r.answers++
+	if r.answers == 1 {
+		return r.first.GetPublicKey()
+	}
+	return r.second.Public().(ed25519.PublicKey), nil
+}
+
+func (r *rotatingStrategy) Sign(data []byte) ([]byte, error) {
+	if r.answers <= 1 {
+		return r.first.Sign(data)
+	}
+	return ed25519.Sign(r.second, data), nil
+}
